@@ -65,3 +65,26 @@ package activitypub
 //@ func (NaturalLanguageValues).First
 //@ ensures (=> (> (len n) 0) (and (= (field result Ref) (field (at n 0) Ref)) (= (field result Value) (field (at n 0) Value))))
 //@ ensures (=> (= (len n) 0) (and (= (field result Ref) "") (= (field result Value) nilbytes)))
+
+//@ func (NaturalLanguageValues).Equals
+//@ ensures (= result (and (= (len n) (len with))
+//@            (forall (k) (=> (and (<= 0 k) (< k (len with)))
+//@               (exists (j) (and (<= 0 j) (< j (len n))
+//@                  (= (field (at n j) Ref) (field (at with k) Ref))
+//@                  (bytesEq (field (at n j) Value) (field (at with k) Value))))))))
+//@ loop 0
+//@   invariant (and (<= -1 rangeindex) (< rangeindex (len with)) (= (len n) (len with)))
+//@   invariant (forall (k) (=> (and (<= 0 k) (<= k rangeindex))
+//@               (exists (j) (and (<= 0 j) (< j (len n))
+//@                  (= (field (at n j) Ref) (field (at with k) Ref))
+//@                  (bytesEq (field (at n j) Value) (field (at with k) Value))))))
+//@ loop 1
+//@   invariant (and (<= -1 rangeindex) (< rangeindex (len n)) (not found))
+//@   invariant (and (<= -1 rangeindex^) (< (+ rangeindex^ 1) (len with)) (= (len n) (len with)))
+//@   invariant (forall (k) (=> (and (<= 0 k) (<= k rangeindex^))
+//@               (exists (j) (and (<= 0 j) (< j (len n))
+//@                  (= (field (at n j) Ref) (field (at with k) Ref))
+//@                  (bytesEq (field (at n j) Value) (field (at with k) Value))))))
+//@   invariant (forall (j) (=> (and (<= 0 j) (<= j rangeindex))
+//@               (not (and (= (field (at n j) Ref) (field (at with (+ rangeindex^ 1)) Ref))
+//@                         (bytesEq (field (at n j) Value) (field (at with (+ rangeindex^ 1)) Value))))))
